@@ -146,6 +146,15 @@ class Corpus:
                 raise Inconclusive("no generated module for " + name)
             self.programs[name].update(rs=rs, eql=os.path.join(self.src, name + ".eql"), rs_sha=sha(rs))
 
+    def add_repo_theories(self, scratch, eqlog_exe):
+        """thorough tier: the repository's own test theories (those the reference parser covers) join the corpus at U = 2"""
+        extra = repo_theories(scratch, eqlog_exe)
+        for name, p in extra.items():
+            p["rs_sha"] = sha(p["rs"])
+            self.programs[name] = p
+            self.meta.setdefault(name, {"terminates": False})
+        return sorted(extra)
+
     def setup(self, name, U):
         p = self.programs[name]
         return L.Setup(p["rs"], p["eql"], U, repo=REPO)
